@@ -269,6 +269,7 @@ var forms = []string{
 	"iface-val", "iface-addr", "iface-val-bump", "iface-addr-bump",
 	"assert-typed", "assert-empty", "assert-anon",
 	"tswitch-typed", "tswitch-empty", "tswitch-overlap",
+	"recv-ptrvar", "recv-embptr", "recv-iface-ptr", "recv-mval-ptr",
 	"nil-call", "nil-assert", "nil-tswitch",
 }
 
@@ -284,6 +285,9 @@ func ifaceSrc(r *rand.Rand) *Recv {
 
 // genScenario builds one scenario of the given form over ts.
 func genScenario(r *rand.Rand, ts []TypeDecl, form string) Prog {
+	if strings.HasPrefix(form, "recv-") {
+		return genRecv(r, ts, form)
+	}
 	ss, _ := structIDs(ts)
 	// prefer the upper half of the hierarchy (deeper embedding)
 	t := ss[len(ss)-1-r.Intn((len(ss)+1)/2)]
@@ -422,7 +426,8 @@ func genScenario(r *rand.Rand, ts []TypeDecl, form string) Prog {
 		for _, k := range r.Perm(len(is)) {
 			sw.Clauses = append(sw.Clauses, []TyRef{{Kind: "named", Typ: is[k]}})
 		}
-		if r.Intn(2) == 0 {
+		// a default clause at any position, first and middle ones included (F05-16, repaired by ff01288)
+		if r.Intn(3) != 0 {
 			at := r.Intn(len(sw.Clauses) + 1)
 			cl := append([][]TyRef{}, sw.Clauses[:at]...)
 			cl = append(cl, []TyRef{})
@@ -456,6 +461,182 @@ func genScenario(r *rand.Rand, ts []TypeDecl, form string) Prog {
 		panic("unknown form " + form)
 	}
 	end()
+	return p
+}
+
+// ---------------------------------------------------------------- receiver passing
+
+// selHit: what the Go selector rule finds for a name (generator steering only; no verdict depends on it).
+type selHit struct {
+	meth   Method
+	path   []int
+	isMeth bool
+}
+
+// goSelect: the field or method named name at the shallowest depth of struct type t, if unique.
+func goSelect(ts []TypeDecl, t int, name string) (selHit, bool) {
+	type node struct {
+		t    int
+		path []int
+	}
+	level := []node{{t, nil}}
+	for d := 0; d < 12 && len(level) > 0; d++ {
+		var hits []selHit
+		var next []node
+		for _, nd := range level {
+			for _, m := range ts[nd.t].Methods {
+				if m.Name == name {
+					hits = append(hits, selHit{m, nd.path, true})
+				}
+			}
+			for i, f := range ts[nd.t].Fields {
+				if f.Name == name {
+					hits = append(hits, selHit{})
+				}
+				if f.Kind == "emb" || f.Kind == "embptr" {
+					next = append(next, node{f.Typ, append(append([]int{}, nd.path...), i)})
+				}
+			}
+		}
+		if len(hits) == 1 {
+			return hits[0], true
+		}
+		if len(hits) > 1 {
+			return selHit{}, false
+		}
+		level = next
+	}
+	return selHit{}, false
+}
+
+// lastEmbPtr: the last field of the index path is embedded by pointer.
+func lastEmbPtr(ts []TypeDecl, t int, path []int) bool {
+	for k, i := range path {
+		f := ts[t].Fields[i]
+		if k == len(path)-1 {
+			return f.Kind == "embptr"
+		}
+		t = f.Typ
+	}
+	return false
+}
+
+type recvCand struct {
+	t    int
+	m    Method
+	path []int
+}
+
+// recvCands: (struct type, value-receiver method selected by the Go rule) pairs. own: the method is
+// declared on the type itself; viaPtr: the last field of the promotion path is embedded by pointer.
+func recvCands(ts []TypeDecl) (own, viaPtr []recvCand) {
+	ss, _ := structIDs(ts)
+	for _, t := range ss {
+		for _, name := range methodPool {
+			h, ok := goSelect(ts, t, name)
+			if !ok || !h.isMeth || h.meth.Ptr {
+				continue
+			}
+			switch {
+			case len(h.path) == 0:
+				own = append(own, recvCand{t, h.meth, h.path})
+			case lastEmbPtr(ts, t, h.path):
+				viaPtr = append(viaPtr, recvCand{t, h.meth, h.path})
+			}
+		}
+	}
+	return
+}
+
+// recvTypes: a small hierarchy made for the receiver forms when the random one has no candidate:
+// C with a value method and a pointer method, M embedding *C, O embedding M (by value or by pointer).
+func recvTypes(r *rand.Rand) []TypeDecl {
+	perm := r.Perm(len(methodPool))
+	vm := Method{Name: methodPool[perm[0]], Sig: r.Intn(2)}
+	pm := Method{Name: methodPool[perm[1]], Ptr: true}
+	c := TypeDecl{Name: "C", Fields: []Field{{Name: "nc", Kind: "int"}}, Methods: []Method{vm, pm}}
+	if r.Intn(2) == 0 {
+		c.Fields = append(c.Fields, Field{Name: "kc", Kind: "int"})
+	}
+	m := TypeDecl{Name: "M", Fields: []Field{{Name: "nm", Kind: "int"}, {Name: "C", Kind: "embptr", Typ: 0}}}
+	if r.Intn(2) == 0 {
+		m.Fields[0], m.Fields[1] = m.Fields[1], m.Fields[0]
+	}
+	kind := "emb"
+	if r.Intn(3) == 0 {
+		kind = "embptr"
+	}
+	o := TypeDecl{Name: "O", Fields: []Field{{Name: "no", Kind: "int"}, {Name: "M", Kind: kind, Typ: 1}}}
+	return []TypeDecl{c, m, o}
+}
+
+// genRecv: a method with a value receiver — its body assigns to the receiver, as every generated
+// method does — reached through a pointer in one of four ways; the operand is dumped afterwards, so a
+// receiver that is not a copy shows.
+//
+//	recv-ptrvar     p := &v; p.M()                         (M declared on the type of v)
+//	recv-embptr     v.M() / p.M()                          (M promoted, the last field of the path is an embedded *T)
+//	recv-iface-ptr  var i interface{ M() } = &v; i.M()
+//	recv-mval-ptr   p := &v; g := p.M; g(); g()
+func genRecv(r *rand.Rand, ts []TypeDecl, form string) Prog {
+	own, via := recvCands(ts)
+	if (form == "recv-embptr" && len(via) == 0) || (form != "recv-embptr" && len(own)+len(via) == 0) || r.Intn(8) == 0 {
+		ts = recvTypes(r)
+		own, via = recvCands(ts)
+	}
+	var c recvCand
+	switch {
+	case form == "recv-embptr":
+		c = via[r.Intn(len(via))]
+	case len(via) > 0 && (len(own) == 0 || r.Intn(3) == 0):
+		c = via[r.Intn(len(via))]
+	default:
+		c = own[r.Intn(len(own))]
+	}
+	p := Prog{Types: ts, Form: form}
+	add := func(s ...Stmt) { p.Stmts = append(p.Stmts, s...) }
+	add(Stmt{Op: "var", X: "v", T: c.t, Base: 1 + r.Intn(5)})
+	calls := 1 + r.Intn(2)
+	switch form {
+	case "recv-ptrvar":
+		add(Stmt{Op: "ptr", X: "p", Y: "v"})
+		for k := 0; k < calls; k++ {
+			add(Stmt{Op: "call", R: &Recv{Kind: "ptrvar", Name: "p"}, M: c.m.Name})
+		}
+	case "recv-embptr":
+		op := &Recv{Kind: "var", Name: "v"}
+		switch r.Intn(3) {
+		case 0:
+			add(Stmt{Op: "ptr", X: "p", Y: "v"})
+			op = &Recv{Kind: "ptrvar", Name: "p"}
+		case 1:
+			op = &Recv{Kind: "addr", Name: "v"}
+		}
+		for k := 0; k < calls; k++ {
+			add(Stmt{Op: "call", R: op, M: c.m.Name})
+		}
+	case "recv-iface-ptr":
+		// an interface type declared for this program: exactly the method under test
+		p.Types = append(append([]TypeDecl{}, ts...), TypeDecl{Name: "IR", Iface: true, Methods: []Method{{Name: c.m.Name, Sig: c.m.Sig}}})
+		src := &Recv{Kind: "addr", Name: "v"}
+		if r.Intn(2) == 0 {
+			add(Stmt{Op: "ptr", X: "p", Y: "v"})
+			src = &Recv{Kind: "ptrvar", Name: "p"}
+		}
+		add(Stmt{Op: "iface", X: "i", T: len(p.Types) - 1, R: src})
+		for k := 0; k < calls; k++ {
+			add(Stmt{Op: "call", R: &Recv{Kind: "ifc", Name: "i"}, M: c.m.Name})
+		}
+	case "recv-mval-ptr":
+		add(Stmt{Op: "ptr", X: "p", Y: "v"})
+		add(Stmt{Op: "mval", X: "g", R: &Recv{Kind: "ptrvar", Name: "p"}, M: c.m.Name})
+		for k := 0; k <= calls; k++ {
+			add(Stmt{Op: "callf", X: "g"})
+		}
+	default:
+		panic("unknown form " + form)
+	}
+	add(Stmt{Op: "dump", Y: "v"})
 	return p
 }
 
@@ -550,7 +731,7 @@ func generate(r *rand.Rand, thorough bool, o genOpts, formList []string) []Prog 
 		ts := genTypes(r, o)
 		for _, f := range formList {
 			reps := 1
-			if thorough && (strings.HasPrefix(f, "call") || strings.HasPrefix(f, "tswitch") || strings.HasPrefix(f, "assert")) {
+			if thorough && (strings.HasPrefix(f, "call") || strings.HasPrefix(f, "tswitch") || strings.HasPrefix(f, "assert") || strings.HasPrefix(f, "recv")) {
 				reps = 2
 			}
 			for k := 0; k < reps; k++ {
